@@ -4,6 +4,8 @@ This module provides request handler classes for processing Gemini requests
 and generating responses, including Titan upload handlers.
 """
 
+import os
+import uuid
 from abc import ABC, abstractmethod
 from pathlib import Path
 from typing import TYPE_CHECKING
@@ -380,10 +382,19 @@ class FileUploadHandler(UploadHandler):
                 meta="Invalid path",
             )
 
-        # 6. Save file
+        # 6. Save file. Write a temporary file next to the target and rename it
+        # into place: if storing fails part-way, an existing file keeps its old
+        # content and no partial file is left behind.
         try:
             target.parent.mkdir(parents=True, exist_ok=True)
-            target.write_bytes(request.content)
+            tmp_path = target.parent / f".upload-{uuid.uuid4().hex}.tmp"
+            try:
+                with open(tmp_path, "xb") as tmp_file:
+                    tmp_file.write(request.content)
+                os.replace(tmp_path, target)
+            except BaseException:
+                tmp_path.unlink(missing_ok=True)
+                raise
 
             return GeminiResponse(
                 status=StatusCode.SUCCESS.value,
